@@ -22,7 +22,7 @@ class Strexd(Opcode):
                 t = processor.registers.get(self.t)
                 t2 = processor.registers.get(self.t2)
                 value = chain(t, t2, 32) if processor.big_endian() else chain(t2, t, 32)
-                if processor.exclusive_monitors_pass(address, 4):
+                if processor.exclusive_monitors_pass(address, 8):
                     processor.mem_a_set(address, 8, value)
                     processor.registers.set(self.d, 0b00000000000000000000000000000000)
                 else:
